@@ -16,6 +16,11 @@
  *                    finalises it, its destructor ALLOCATES a new managed object and publishes it (see Q)
  *   Q<fid>=<lid><K>,<place>  what the finaliser of F-node fid does: new node lid of kind K (S or W),
  *                    published into place = K (a stack slot) | T<s> (TLS entry k<s>) | P<h>.<i> (field i of node h)
+ *                    V = user type with its own Mark instance (two pointer fields handed to the callback;
+ *                    destructor ledger as S)
+ *   L<first>,<n>,<K>,<tail>  a singly linked chain of n nodes first..first+n-1 of kind K (R Ref, B Box, S struct,
+ *                    U heap Tuple cons cell, V user type with Mark): node first points to <tail> (0 = nothing), node i
+ *                    to node i-1; only the head first+n-1 stays in a stack slot
  *   B<c>,<m>,<n>,<first>  bulk build: container c receives n FRESH probe structs (ids first..first+n-1) that are
  *                    allocated WHILE the container operation consumes its argument and are referenced from
  *                    nowhere else (no stack slot): m = c: concat(c, map(range(n), make)) for A L U (the iterable
@@ -40,6 +45,7 @@
  *                    collector, its own stack bottom, its own TLS table
  * Transcript: observations separated by " | ":
  *   G m=<ids with mark bit set after GC_Mark> a=<ids alive> f=<probe ids finalised> c=<ids with broken canary>
+ *     u=<probe ids freed by the collector whose destructor did not run exactly once>
  *     w=<1|0: every alive registered node lies inside [gc->minptr, gc->maxptr] (white-box: range_ok)> x=<notes>
  *   M a=... f=... c=... t=<threshold collections seen>
  * alive = registered node not freed by the collector (hook) and still `mem(current(GC), p)`.
@@ -70,6 +76,14 @@ static void Probe_Del(var self) {
   p->canary = 0xDEAD0001ull;
 }
 static var Probe = Cello(Probe, Instance(New, NULL, Probe_Del));
+/* user type with its own Mark instance: GC_Recurse calls it instead of scanning the words */
+static void MarkProbe_Mark(var self, var gc, void(*f)(var,void*)) {
+  struct Probe* p = self;
+  if (p->p0) f(gc, p->p0);
+  if (p->p1) f(gc, p->p1);
+}
+struct MarkProbe { int64_t id; uint64_t canary; var p0; var p1; };
+static var MarkProbe = Cello(MarkProbe, Instance(New, NULL, Probe_Del), Instance(Mark, MarkProbe_Mark));
 /* the same with 300 KB of padding: calloc serves it from a fresh mapping */
 struct BigProbe { int64_t id; uint64_t canary; var p0; var p1; char pad[300 * 1024]; };
 static var BigProbe = Cello(BigProbe, Instance(New, NULL, Probe_Del));
@@ -160,6 +174,7 @@ static void __attribute__((noinline)) op_new(long id, char k, int root) {
   var p = NULL;
   switch (k) {
     case 'S': p = root ? alloc_root(Probe) : alloc(Probe); break;
+    case 'V': p = root ? alloc_root(MarkProbe) : alloc(MarkProbe); break;
     case 's': p = alloc_raw(Probe); break;
     case 'W': p = root ? alloc_root(BigProbe) : alloc(BigProbe); break;
     case 'F': p = root ? alloc_root(FinProbe) : alloc(FinProbe); break;
@@ -176,7 +191,7 @@ static void __attribute__((noinline)) op_new(long id, char k, int root) {
     case 'u': p = new_raw(Tuple); break;
     default: note("badkind"); return;
   }
-  if (k == 'S' || k == 's' || k == 'W' || k == 'F') { struct Probe* q = p; q->id = id; q->canary = CANARY; }
+  if (k == 'S' || k == 's' || k == 'W' || k == 'F' || k == 'V') { struct Probe* q = p; q->id = id; q->canary = CANARY; }
   ensure(id);
   LED[id] = (uintptr_t)p ^ MASK; KIND[id] = k; DEAD[id] = 0; ROOTF[id] = (char)root;
   if (id > MAXID) MAXID = id;
@@ -196,6 +211,20 @@ static void __attribute__((noinline)) op_copy(long id, long src) {
   hput((uintptr_t)p ^ MASK, id);
   keep_add(id);
   p = NULL;
+}
+
+static void __attribute__((noinline)) op_store(long id, long i, long t);
+static void __attribute__((noinline)) op_insert(long id, long k, long t);
+/* L: singly linked chain */
+static void __attribute__((noinline)) op_chain(long first, long n, char k, long tail) {
+  long prev = tail;
+  for (long i = 0; i < n; i++) {
+    long id = first + i;
+    op_new(id, k, 0);
+    if (prev) { if (k == 'U') op_insert(id, 0, prev); else op_store(id, 0, prev); }
+    if (prev && prev >= first) keep_drop(prev);
+    prev = id;
+  }
 }
 
 /* element factory of the bulk operations: called by Map's iterator once per element */
@@ -231,7 +260,7 @@ static void __attribute__((noinline)) op_bulk(long c, char mode, long n, long fi
 static void __attribute__((noinline)) op_store(long id, long i, long t) {
   var p = nptr(id); var q = nptr(t);
   switch (KIND[id]) {
-    case 'S': case 's': case 'W': { struct Probe* s = p; if (i == 0) s->p0 = q; else s->p1 = q; break; }
+    case 'S': case 's': case 'W': case 'V': { struct Probe* s = p; if (i == 0) s->p0 = q; else s->p1 = q; break; }
     case 'R': case 'r': ((struct Ref*)p)->val = q; break;
     case 'B': ((struct Box*)p)->val = q; break;
     default: note("badstore");
@@ -362,10 +391,11 @@ static void plist(const char* tag, int which) {
       case 1: on = is_reg(KIND[id]) && !DEAD[id] && mem(gcv, nptr(id)); break;
       case 2: on = FIN[id] > 0; break;
       case 3: {
-        if (((KIND[id] == 'S' || KIND[id] == 'W') && !DEAD[id]) || KIND[id] == 's') {
+        if (((KIND[id] == 'S' || KIND[id] == 'W' || KIND[id] == 'V') && !DEAD[id]) || KIND[id] == 's') {
           struct Probe* q = nptr(id); on = q->canary != CANARY || q->id != id;
         }
         break; }
+      case 4: on = (KIND[id] == 'S' || KIND[id] == 'W' || KIND[id] == 'V' || KIND[id] == 'F') && DEAD[id] && FIN[id] != 1; break;
     }
     if (on) { P(first ? "%ld" : ",%ld", id); first = 0; }
   }
@@ -386,7 +416,7 @@ static int window_ok(void) {
 static void observe(char what) {
   P("%c", what);
   if (what == 'G' || what == 'H' || what == 'E') plist("m", 0);
-  plist("a", 1); plist("f", 2); plist("c", 3);
+  plist("a", 1); plist("f", 2); plist("c", 3); plist("u", 4);
   P(" w=%d", window_ok());
   if (what == 'M') P(" t=%ld", THRESH);
   if (XNOTE[0]) { P(" x=%s", XNOTE); XNOTE[0] = 0; }
@@ -399,6 +429,8 @@ static void __attribute__((noinline)) exec_tok(char* tok, int* nobs) {
     case 'N': { long id = strtol(tok + 1, &e, 10); char k = *e; int root = e[1] == '!';
       op_new(id, k, root); break; }
     case 'C': { long id = strtol(tok + 1, &e, 10); long src = strtol(e + 1, &e, 10); op_copy(id, src); break; }
+    case 'L': { long first = strtol(tok + 1, &e, 10); long n = strtol(e + 1, &e, 10); char k = e[1]; long tail = strtol(e + 3, &e, 10);
+      op_chain(first, n, k, tail); break; }
     case 'B': { long c = strtol(tok + 1, &e, 10); char m = e[1]; long n = strtol(e + 3, &e, 10); long first = strtol(e + 1, &e, 10);
       op_bulk(c, m, n, first); break; }
     case 'Q': { long id = strtol(tok + 1, &e, 10); long lid = strtol(e + 1, &e, 10); char k = *e; char pl = e[2];
@@ -434,6 +466,7 @@ static void one_case_body(char* line) {
   long mx = 16;
   for (char* s = line; *s; s++) {
     if (*s == 'N' || *s == 'C') { long v = strtol(s + 1, NULL, 10); if (v > mx) mx = v; }
+    if (*s == 'L' && s[1] >= '0' && s[1] <= '9') { char* q; long f = strtol(s + 1, &q, 10); long n = strtol(q + 1, &q, 10); if (f + n > mx) mx = f + n; }
     if (*s == 'B') { char* q; strtol(s + 1, &q, 10); long n = strtol(q + 3, &q, 10); long f = strtol(q + 1, &q, 10);
                      if (f + n > mx) mx = f + n; }
     if (*s == '=' ) { long v = strtol(s + 1, NULL, 10); if (v > mx) mx = v; }      /* late ids of Q */
